@@ -219,6 +219,12 @@ func (e *Eval) hardcoded(fr *Frame, cc *ssa.CallCommon, fn *ssa.Function, args [
 				w, _, _ := isInt(t)
 				if d, ok := bvLitValue(args[1].T, w); ok {
 					o := c.Get(st, "$owed")
+					if d > 0 && e.iterRefs[a.Base] {
+						// IncRef on a reference that was only found in the tree:
+						// its count may already be zero (it is being destroyed);
+						// only TryIncRef may pin it
+						e.oblige("refs@"+site+"/never-resurrects-a-reference-found-in-the-tree", "refcount", r.Props, cur, "false", "a reference found by iterating the path tree may be dead: it is pinned with TryIncRef (which refuses a zero count), never with an unconditional increment", r.Where)
+					}
 					if d < 0 {
 						e.oblige("refs@"+site+"/drops-only-held-reference", "refcount", r.Props, cur, "(>= "+sel(o, a.Base)+" 1)", "a reference is dropped only by an invocation that holds one (acquired by lookup / IncRef / creation, or taken over from a table entry or link)", r.Where)
 					}
